@@ -2,6 +2,7 @@ package main
 
 import (
 	"bytes"
+	"errors"
 	"fmt"
 	"io"
 	"math/rand"
@@ -25,10 +26,66 @@ type lazyCase struct {
 	Stream  string `json:"stream_hex"`
 	DictCap int    `json:"reader_dict_cap"`
 	Sizes   []int  `json:"read_sizes"`
+	// 0: the source ends with io.EOF; 1..3: it FAILS with an error of its own once all bytes have been delivered
+	// (1: as much as asked per Read, 2: one byte per Read, 3: short reads of varying length). The model is then run with
+	// srcErr = true (commands lzlazyE …). The error arrives alone: a source that returns it together with its last
+	// bytes is told apart by io.Copy (uncompressed LZMA2 chunks) and is left to the direct oracle of C09.
+	SrcFail int `json:"src_fail,omitempty"`
+}
+
+var errLazySrc = errors.New("verif: injected source failure")
+
+// lazySrc: the source of a lazy-tie case. Without failure a bytes.Reader (an io.ByteReader, as most callers pass);
+// with failure a plain io.Reader that fragments as the mode says and never reports io.EOF.
+type lazySrc struct {
+	data []byte
+	pos  int
+	mode int
+	x    uint32
+}
+
+func (f *lazySrc) Read(p []byte) (int, error) {
+	if f.pos >= len(f.data) {
+		return 0, errLazySrc
+	}
+	n := len(p)
+	switch f.mode {
+	case 2:
+		if n > 1 {
+			n = 1
+		}
+	case 3:
+		f.x = f.x*1664525 + 1013904223
+		if m := int(f.x>>16)%97 + 1; n > m {
+			n = m
+		}
+	}
+	if n > len(f.data)-f.pos {
+		n = len(f.data) - f.pos
+	}
+	copy(p, f.data[f.pos:f.pos+n])
+	f.pos += n
+	return n, nil
+}
+
+func eSuffix(srcFail int) string {
+	if srcFail != 0 {
+		return "E"
+	}
+	return ""
+}
+
+func newLazySrc(stream []byte, mode int) io.Reader {
+	if mode == 0 {
+		return bytes.NewReader(stream)
+	}
+	return &lazySrc{data: stream, mode: mode, x: uint32(len(stream))}
 }
 
 func lazyStatus(err error) string {
 	switch {
+	case err != nil && errors.Is(err, errLazySrc):
+		return "src"
 	case err == nil:
 		return "ok"
 	case err == io.EOF:
@@ -57,11 +114,17 @@ func goLazy(cs lazyCase) (calls []string, delivered []byte, openErr string) {
 			calls = append(calls, "0:panic")
 		}
 	}()
-	rd, err := lzma.ReaderConfig{DictCap: cs.DictCap}.NewReader(bytes.NewReader(unhxe(cs.Stream)))
+	rd, err := lzma.ReaderConfig{DictCap: cs.DictCap}.NewReader(newLazySrc(unhxe(cs.Stream), cs.SrcFail))
 	if err != nil {
+		if errors.Is(err, errLazySrc) {
+			return nil, nil, "src"
+		}
 		return nil, nil, err.Error()
 	}
 	more := 3 // calls still to be made after an error (the caller ignoring it): results must equal the model's, no panic
+	if cs.SrcFail != 0 {
+		more = 0 // what was half decoded when the source failed is not modelled
+	}
 	for _, sz := range cs.Sizes {
 		p := make([]byte, sz)
 		n, err := rd.Read(p)
@@ -104,6 +167,20 @@ func lazyTie(r *Result, dp *DriverPool, rng *rand.Rand, nbase int) {
 			}
 			sizes = append(sizes, 7, 0, 7) // past the end: end of stream must be stable
 			cases = append(cases, lazyCase{Op: "lazy-read", Name: name, Stream: hxe(stream), DictCap: caps[rng.Intn(len(caps))], Sizes: sizes})
+		}
+		// the same bytes, mostly cut somewhere, from a source that FAILS where they end (C09, reader side)
+		{
+			cut := stream
+			if rng.Intn(4) != 0 {
+				cut = stream[:rng.Intn(len(stream)+1)]
+			}
+			var sizes []int
+			for budget := content + 600; budget > 0 && len(sizes) < 400; {
+				sz := []int{1, 2, 273, 1000, 4096, 1 + rng.Intn(9000)}[rng.Intn(6)]
+				sizes = append(sizes, sz)
+				budget -= sz
+			}
+			cases = append(cases, lazyCase{Op: "lazy-read", Name: "srcfail/" + name, Stream: hxe(cut), DictCap: caps[rng.Intn(len(caps))], Sizes: sizes, SrcFail: 1 + rng.Intn(3)})
 		}
 	}
 	for i := 0; i < nbase; i++ {
@@ -173,7 +250,7 @@ func lazyTie(r *Result, dp *DriverPool, rng *rand.Rand, nbase int) {
 			defer wg.Done()
 			defer func() { <-sem }()
 			goCalls, delivered, openErr := goLazy(cs)
-			q := fmt.Sprintf("lzlazy %d %s", cs.DictCap, cs.Stream)
+			q := fmt.Sprintf("lzlazy%s %d %s", eSuffix(cs.SrcFail), cs.DictCap, cs.Stream)
 			for _, s := range cs.Sizes {
 				q += fmt.Sprint(" ", s)
 			}
@@ -188,7 +265,7 @@ func lazyTie(r *Result, dp *DriverPool, rng *rand.Rand, nbase int) {
 			r.Inc("lazy_reader_runs")
 			r.Inc("lazy_" + strings.SplitN(cs.Name, "/", 2)[0])
 			if strings.HasPrefix(rep, "open:") || openErr != "" {
-				if !strings.HasPrefix(rep, "open:") || openErr == "" {
+				if !strings.HasPrefix(rep, "open:") || openErr == "" || (rep == "open:src") != (openErr == "src") {
 					r.Violate("broken-correspondence", "lazy-reader open", cs, fmt.Sprintf("NewReader: go %q, model %q", openErr, truncate(rep, 80)))
 				}
 				return
@@ -259,11 +336,14 @@ func goLazy2(cs lazyCase) (calls []string, delivered []byte) {
 			calls = append(calls, "0:panic")
 		}
 	}()
-	rd, err := lzma.Reader2Config{DictCap: cs.DictCap}.NewReader2(bytes.NewReader(unhxe(cs.Stream)))
+	rd, err := lzma.Reader2Config{DictCap: cs.DictCap}.NewReader2(newLazySrc(unhxe(cs.Stream), cs.SrcFail))
 	if err != nil {
 		return []string{"0:open"}, nil
 	}
 	more := 3 // calls still to be made after an error (the caller ignoring it): results must equal the model's, no panic
+	if cs.SrcFail != 0 {
+		more = 0 // what was half decoded when the source failed is not modelled
+	}
 	for _, sz := range cs.Sizes {
 		p := make([]byte, sz)
 		n, err := rd.Read(p)
@@ -306,6 +386,20 @@ func lazy2Tie(r *Result, dp *DriverPool, rng *rand.Rand, nbase int) error {
 			}
 			sizes = append(sizes, 7, 0, 7)
 			cases = append(cases, lazyCase{Op: "lazy2-read", Name: name, Stream: hxe(stream), DictCap: caps[rng.Intn(len(caps))], Sizes: sizes})
+		}
+		// the same bytes, mostly cut somewhere, from a source that FAILS where they end (C09, reader side)
+		{
+			cut := stream
+			if rng.Intn(4) != 0 {
+				cut = stream[:rng.Intn(len(stream)+1)]
+			}
+			var sizes []int
+			for budget := content + 600; budget > 0 && len(sizes) < 400; {
+				sz := []int{1, 2, 273, 1000, 4096, 1 + rng.Intn(9000)}[rng.Intn(6)]
+				sizes = append(sizes, sz)
+				budget -= sz
+			}
+			cases = append(cases, lazyCase{Op: "lazy2-read", Name: "srcfail/" + name, Stream: hxe(cut), DictCap: caps[rng.Intn(len(caps))], Sizes: sizes, SrcFail: 1 + rng.Intn(3)})
 		}
 	}
 	for i := 0; i < nbase; i++ {
@@ -371,6 +465,17 @@ func lazy2Tie(r *Result, dp *DriverPool, rng *rand.Rand, nbase int) error {
 			mk("header/"+name, m, content)
 		}
 	}
+	// a compressed chunk whose range-coder start is short (declared size below five, or the input ends) with a zero or
+	// a non-zero first byte: newRangeDecoder rejects the non-zero byte before it runs out of bytes
+	for _, first := range []byte{0, 1} {
+		for _, csz := range []int{1, 3, 5, 9} {
+			for avail := 0; avail <= 5; avail++ {
+				st := []byte{0xE0, 0, 0, 0, byte(csz - 1), 0x5D}
+				st = append(st, append([]byte{first}, make([]byte, 8)...)[:avail]...)
+				mk(fmt.Sprintf("short-init/first%d-csize%d-avail%d", first, csz, avail), st, 0)
+			}
+		}
+	}
 	var wg sync.WaitGroup
 	sem := make(chan struct{}, 16)
 	for _, cs := range cases {
@@ -380,7 +485,7 @@ func lazy2Tie(r *Result, dp *DriverPool, rng *rand.Rand, nbase int) error {
 			defer wg.Done()
 			defer func() { <-sem }()
 			goCalls, delivered := goLazy2(cs)
-			q := fmt.Sprintf("lz2lazy %d %s", cs.DictCap, cs.Stream)
+			q := fmt.Sprintf("lz2lazy%s %d %s", eSuffix(cs.SrcFail), cs.DictCap, cs.Stream)
 			for _, s := range cs.Sizes {
 				q += fmt.Sprint(" ", s)
 			}
@@ -440,10 +545,13 @@ type lazyXzCase struct {
 	DictCap int    `json:"reader_dict_cap"`
 	Single  bool   `json:"single_stream"`
 	Sizes   []int  `json:"read_sizes"`
+	SrcFail int    `json:"src_fail,omitempty"` // as in lazyCase
 }
 
 func lazyXzStatus(err error) string {
 	switch {
+	case err != nil && errors.Is(err, errLazySrc):
+		return "src"
 	case err == nil:
 		return "ok"
 	case err == io.EOF:
@@ -462,7 +570,7 @@ func goLazyXz(cs lazyXzCase) (calls []string, delivered []byte, openSt string) {
 			calls = append(calls, "0:panic")
 		}
 	}()
-	rd, err := xz.ReaderConfig{DictCap: cs.DictCap, SingleStream: cs.Single}.NewReader(bytes.NewReader(unhxe(cs.Stream)))
+	rd, err := xz.ReaderConfig{DictCap: cs.DictCap, SingleStream: cs.Single}.NewReader(newLazySrc(unhxe(cs.Stream), cs.SrcFail))
 	if err != nil {
 		return nil, nil, lazyXzStatus(err)
 	}
@@ -517,6 +625,20 @@ func lazyXzTie(r *Result, dp *DriverPool, rng *rand.Rand, nbase int) error {
 			}
 			sizes = append(sizes, 7, 0, 7)
 			cases = append(cases, lazyXzCase{Op: "lazyxz-read", Name: name, Stream: hxe(stream), DictCap: []int{0, 4096, 1 << 16}[rng.Intn(3)], Single: rng.Intn(4) == 0, Sizes: sizes})
+		}
+		// the same bytes, mostly cut somewhere, from a source that FAILS where they end (C09, reader side)
+		{
+			cut := stream
+			if rng.Intn(4) != 0 {
+				cut = stream[:rng.Intn(len(stream)+1)]
+			}
+			var sizes []int
+			for budget := content + 600; budget > 0 && len(sizes) < 400; {
+				sz := []int{1, 2, 273, 1000, 4096, 1 + rng.Intn(9000)}[rng.Intn(6)]
+				sizes = append(sizes, sz)
+				budget -= sz
+			}
+			cases = append(cases, lazyXzCase{Op: "lazyxz-read", Name: "srcfail/" + name, Stream: hxe(cut), DictCap: []int{0, 4096, 1 << 16}[rng.Intn(3)], Single: rng.Intn(4) == 0, Sizes: sizes, SrcFail: 1 + rng.Intn(3)})
 		}
 	}
 	var prevStream []byte
@@ -597,7 +719,7 @@ func lazyXzTie(r *Result, dp *DriverPool, rng *rand.Rand, nbase int) error {
 			defer wg.Done()
 			defer func() { <-sem }()
 			goCalls, delivered, openSt := goLazyXz(cs)
-			q := fmt.Sprintf("xzlazy %d %d %s", cs.DictCap, b2i(cs.Single), cs.Stream)
+			q := fmt.Sprintf("xzlazy%s %d %d %s", eSuffix(cs.SrcFail), cs.DictCap, b2i(cs.Single), cs.Stream)
 			for _, s := range cs.Sizes {
 				q += fmt.Sprint(" ", s)
 			}
